@@ -339,6 +339,9 @@ class Metadata(CbMixin, ProgMixin):
                 length = val[""]["length"]
                 # empty files have no pieces root
                 root = val[""].get("pieces root")
+                # the decoder returns text for byte strings that are valid UTF-8
+                if isinstance(root, str):
+                    root = root.encode("utf-8")
                 self.files.append({
                     "path": path,
                     "full": full,
